@@ -46,7 +46,14 @@ func ToLedgerChannelProposalMsg(protoEnvMsg *Envelope_LedgerChannelProposalMsg) 
 		return nil, errors.WithMessage(err, "participant address")
 	}
 	msg.Peers, err = ToWireAddrs(protoMsg.GetPeers())
-	return msg, errors.WithMessage(err, "peers")
+	if err != nil {
+		return nil, errors.WithMessage(err, "peers")
+	}
+	if len(msg.Peers) < channel.MinNumParts || len(msg.Peers) > channel.MaxNumParts {
+		return nil, errors.Errorf("expected %d-%d participants, got %d",
+			channel.MinNumParts, channel.MaxNumParts, len(msg.Peers))
+	}
+	return msg, nil
 }
 
 // ToSubChannelProposalMsg converts a protobuf Envelope_SubChannelProposalMsg to a client SubChannelProposalMsg.
@@ -85,7 +92,13 @@ func ToVirtualChannelProposalMsg(protoEnvMsg *Envelope_VirtualChannelProposalMsg
 		}
 	}
 	msg.Peers, err = ToWireAddrs(protoMsg.GetPeers())
-	return msg, errors.WithMessage(err, "peers")
+	if err != nil {
+		return nil, errors.WithMessage(err, "peers")
+	}
+	if len(msg.Peers) > channel.MaxNumParts {
+		return nil, errors.Errorf("expected at most %d participants, got %d", channel.MaxNumParts, len(msg.Peers))
+	}
+	return msg, nil
 }
 
 // ToLedgerChannelProposalAccMsg converts a protobuf Envelope_LedgerChannelProposalAccMsg to a client
